@@ -68,6 +68,34 @@ def now0(banks, now):
     return now
 
 
+from props import c12 as C12
+
+
+def admin_clock_suite(rng, n):
+    """'interest is applied first, with the time since the last update': NO administrative instruction accrues, so none may move a
+    bank's accrual clock (last_update) - otherwise the interest of the period since the last accrual is silently dropped. C12's
+    generator of administrator instructions (configure, interest-only, limits-only, e-mode, oracle, emissions, metadata ...) on
+    fixture banks that are in use and were last accrued a day ago, through the real entry point"""
+    lines = [C12.gen_priv_case(rng) for _ in range(n)]
+    return {"suite": "privsim", "name": "admin-instructions-leave-the-accrual-clock", "lines": lines, "distribution": {"cases": n}}
+
+
+def oracle_admin_clock(case, impl):
+    parts = impl.split(" | ")
+    steps = C12.parse_priv_steps(case)
+    if len(parts) != 2 + len(steps):
+        return None
+    for st, outp in zip(steps, parts[2:]):
+        status, j, dump, dn, an = C12.parse_step_out(outp)
+        if status != "OK" or dn is None:
+            continue
+        if "last_update" in dn:
+            return {"key": "accrual-clock-moved-without-accrual:" + st[0],
+                    "what": f"{st[0]} (an administrative instruction, which does not accrue) changed last_update of bank {j}: "
+                            "the interest of the period since the previous accrual is never applied"}
+    return None
+
+
 def suites(rng, tier):
     n = {"quick": 2500, "thorough": 60000, "search": 30000}[tier]
     lines = [gen_case2(rng) for _ in range(n)]
@@ -76,7 +104,8 @@ def suites(rng, tier):
     return [{"suite": "bankops", "name": "bankops-accrual", "lines": lines, "distribution": {"cases": n}},
             {"suite": "hops", "name": "hops-handlers", "lines": hl, "distribution": {"cases": len(hl), "close_balance_after_time": max(40, m // 10)}},
             {"suite": "hopsref", "name": "hops-freshness-reference", "lines": hl, "impl_only": True,
-             "distribution": {"cases": len(hl), "note": "same cases; adds the real accrue_interest applied in isolation as reference"}}]
+             "distribution": {"cases": len(hl), "note": "same cases; adds the real accrue_interest applied in isolation as reference"}},
+            admin_clock_suite(rng, {"quick": 300, "thorough": 8000, "search": 3000}[tier])]
 
 
 def gen_case2(rng):
@@ -106,6 +135,8 @@ def gen_case2(rng):
 
 
 def nontrivial(suite, case, impl):
+    if suite == "privsim":
+        return C12.nontrivial(suite, case, impl)
     if suite in ("hops", "hopsref"):
         tr = O.Trace(case, impl)
         for op, res, b0, a0, b1, a1, now, prices in O.walk(tr):
@@ -127,6 +158,8 @@ def nontrivial(suite, case, impl):
 
 
 def oracle(suite, case, impl):
+    if suite == "privsim":
+        return oracle_admin_clock(case, impl)
     if suite in ("hops", "hopsref"):
         return O.oracle_c06_fresh(O.Trace(case, impl))
     c = G.parse_case(case)
